@@ -105,6 +105,12 @@ def make_plan(prop, root_seed, i, tier):
     return json.loads(json.dumps(plan))
 
 
+_PACKAGE_CALL_SITES = frozenset([
+    ("listing", "ops.py"), ("structural", "common.py"),
+    ("_setstate", "world.py"), ("serialize", "world.py"),
+])
+
+
 def execute(prop, plan, variant="plain", trace=False):
     """-> result dict; never raises for violations"""
     scn = scenario(prop)
@@ -127,9 +133,23 @@ def execute(prop, plan, variant="plain", trace=False):
         # error and is re-raised
         import traceback
         where = None
-        for fs in traceback.extract_tb(e.__traceback__):
+        frames = traceback.extract_tb(e.__traceback__)
+        for fs in frames:
             if "/BTrees/" in fs.filename.replace("\\", "/"):
                 where = fs.name
+        if where is None and frames:
+            # the C extension has no Python frames: an exception that comes
+            # out of one of the harness's thin call sites into the package
+            # (full listing, _check()/check(), the state walker, the stub
+            # connection's __setstate__/__getstate__ calls) is the package's
+            # too; SystemError is never the harness's doing
+            last = frames[-1]
+            fn = last.filename.replace("\\", "/")
+            if fn.endswith("/sim/walker.py") or (last.name, fn.rsplit(
+                    "/", 1)[-1]) in _PACKAGE_CALL_SITES:
+                where = "c-call:" + last.name
+            elif isinstance(e, SystemError):
+                where = "c-call:SystemError"
         if where is None or isinstance(e, (MemoryError, RecursionError)):
             raise
         res["violation"] = {
